@@ -218,6 +218,13 @@ func runLife(tr *Tracer, cur *int64, scn *lifeScn) {
 				}
 			}
 			settle()
+		case "stray":
+			// packets for a channel that never existed: nobody consumes the connection errors they cause
+			r.emit(Ev{"ev": "Stray", "n": op.N})
+			for i := 0; i < op.N; i++ {
+				r.mc.Feed(mkPacket(4, 1, 77, 0, encDone(tokDone, 0, 0, 0).Bytes))
+			}
+			settle()
 		case "until":
 			// NextPackageUntil whose callback fails on the first non-final package (the library then
 			// consumes the rest of the response) and stops at a final DONE
@@ -426,6 +433,15 @@ func lifeMain(args []string) error {
 			// every channel closed before the connection is closed; no channel ever used
 			scns = append(scns, lifeScn{K: k, Answers: true, Ops: []lifeOp{{Op: "close"}, {Op: "connclose"}, {Op: "next"}}})
 			scns = append(scns, lifeScn{K: k, Answers: true, Chan: 1, Ops: []lifeOp{{Op: "close"}, {Op: "connclose"}}})
+			// overlapping Close calls on one channel (the logout is answered late, so both are past the
+			// entry check before either takes the lock); Channel.Close overlapping with Conn.Close
+			scns = append(scns, lifeScn{K: k, Answers: true, Late: true, Ops: []lifeOp{{Op: "close"}, {Op: "close"}, {Op: "next"}}})
+			scns = append(scns, lifeScn{K: k, Answers: true, Late: true, Ops: []lifeOp{{Op: "close"}, {Op: "connclose"}, {Op: "send"}}})
+			scns = append(scns, lifeScn{K: k, Answers: true, Late: true, Ops: []lifeOp{{Op: "connclose"}, {Op: "close"}, {Op: "close"}}})
+			// more stray packets than the connection's error queue holds, nobody consuming: Conn.Close
+			// still ends the reader
+			scns = append(scns, lifeScn{K: k, Answers: true, Ops: []lifeOp{{Op: "stray", N: 10 + 2*k}, {Op: "connclose"}}})
+			scns = append(scns, lifeScn{K: k, Answers: true, Chan: 1, Ops: []lifeOp{{Op: "stray", N: 14}, {Op: "close"}, {Op: "connclose"}}})
 			// sends with cancelled contexts
 			scns = append(scns, lifeScn{K: k, Answers: true, Ops: []lifeOp{{Op: "send", Ctx: "cancelled"}, {Op: "send"}, {Op: "send", Ctx: "cancelled"}}})
 		}
